@@ -722,6 +722,13 @@ func TestVerifC16(t *testing.T) {
 	defer tr.Close()
 	defer vw.Finish("C16")
 	vw.Sample(fmt.Sprintf("C16 codec harness, seed %d, thorough=%v", vw.Seed(), vw.Thorough()))
+	// gob numbers types process-wide in order of first use: fix that order, so that a case replayed alone
+	// (VERIF_CASES) puts exactly the same bytes on the wire as in the full run
+	for _, v := range []interface{}{&rpc.Request{}, &rpc.Response{}, &c16Bulk{}, &c16Plain{}} {
+		if err := gob.NewEncoder(&bytes.Buffer{}).Encode(v); err != nil {
+			t.Fatal(err)
+		}
+	}
 	ci := 0
 	next := func(class string) (string, *vw.Rng, bool) {
 		id := fmt.Sprintf("%d", ci)
